@@ -125,7 +125,7 @@ impl Scenario for C17 {
                     30 => TOp::UnsealKeyWrongRecipient,
                     31 => TOp::UnwrapPieWrongKey,
                     32 => TOp::DecryptWrongKey,
-                    33 => TOp::VerifyWrongKey,
+                    33 => if matches!(bk.family(), 2 | 4) && b.rng.bool() { TOp::SealKeyTwiceToOddRecipient { which: b.rng.below(8) as u8 } } else { TOp::VerifyWrongKey },
                     _ => TOp::Encrypt { len: b.rng.usize_below(100) },
                 };
                 // a wrong-key attempt is most interesting right before the right key is used on the same artifact
@@ -150,6 +150,13 @@ impl Scenario for C17 {
                             s.push(TOp::UnsealKeyOwn);
                         }
                     }
+                    continue;
+                }
+                // an unusable recipient is most interesting right after a good one
+                if matches!(op, TOp::SealKeyTwiceToOddRecipient { .. }) {
+                    s.push(TOp::SealKey);
+                    s.push(op);
+                    s.push(TOp::UnsealKeyOwn);
                     continue;
                 }
                 if matches!(op, TOp::UnwrapPieWrongKey) {
